@@ -93,7 +93,7 @@ def parse_type(text: str):
             return BOOL
         if t == 'Str':
             return STR
-        if t in ('List', 'Option'):
+        if t in ('List', 'Option', 'Set'):
             return (t, atom())
         if t == 'Dict':
             kt = atom()
@@ -132,6 +132,8 @@ def show_type(t, top=True) -> str:
         r = t[1]
     elif k in ('List', 'Option'):
         r = '%s %s' % (k, show_type(t[1], False))
+    elif k == 'Set':
+        r = 'PyRt.Set %s' % show_type(t[1], False)
     elif k == 'Prod':
         r = ' × '.join(show_type(x, False) for x in t[1])
     elif k == 'Dict':
@@ -153,7 +155,7 @@ def unify(a, b, node=None):
         return a
     if a == b:
         return a
-    if a[0] == b[0] and a[0] in ('List', 'Option'):
+    if a[0] == b[0] and a[0] in ('List', 'Option', 'Set'):
         return (a[0], unify(a[1], b[1], node))
     if a[0] == 'Prod' and b[0] == 'Prod' and len(a[1]) == len(b[1]):
         return ('Prod', tuple(unify(x, y, node) for x, y in zip(a[1], b[1])))
@@ -170,7 +172,7 @@ def unify(a, b, node=None):
 def known(t) -> bool:
     if t is None:
         return False
-    if t[0] in ('List', 'Option'):
+    if t[0] in ('List', 'Option', 'Set'):
         return known(t[1])
     if t[0] == 'Prod':
         return all(known(x) for x in t[1])
@@ -193,6 +195,8 @@ def default_of(t, inhabited=()) -> str:
         return '(' + ', '.join(default_of(x, inhabited) for x in t[1]) + ')'
     if k == 'Dict':
         return '([] : %s)' % show_type(t)
+    if k == 'Set':
+        return '(PyRt.Set.empty : %s)' % show_type(t)
     if k == 'Unit':
         return '()'
     if k == 'Var' and t[1] in inhabited:
@@ -722,6 +726,23 @@ class FnTranslator:
     def view_term(self, attr):
         return 's.self.%s' % lean_field(attr)
 
+    def state_attr(self, node):
+        """`self.a` / `self.p.q` (a dotted path the spec maps to a state field, `paths`) -> the state attribute, or
+        None"""
+        if self.cls is None or not isinstance(node, ast.Attribute):
+            return None
+        parts = []
+        n = node
+        while isinstance(n, ast.Attribute):
+            parts.append(n.attr)
+            n = n.value
+        if not (isinstance(n, ast.Name) and n.id == self.self_name):
+            return None
+        path = '.'.join(reversed(parts))
+        if len(parts) == 1:
+            return path if path in self.cls_state and path not in self.cls.get('virtual', ()) else None
+        return self.cls.get('paths', {}).get(path)
+
     def _infer_block(self, stmts, nn=frozenset()):
         for st in stmts:
             if isinstance(st, ast.Assign):
@@ -943,6 +964,24 @@ class FnTranslator:
             else:
                 e = 'PyRt.popLast s.%s' % self.field(var)
             return self._wrap(ex, self._let_update([(var, e)]) + '\n' + self.block(rest, k, ctx), ctx)
+        if isinstance(st, ast.Expr) and isinstance(st.value, ast.Call) and isinstance(st.value.func, ast.Attribute) \
+                and st.value.func.attr in ('add', 'remove', 'discard') and self.cls is not None \
+                and self_rooted(st.value.func.value, self.self_name) and not st.value.keywords \
+                and len(st.value.args) == 1:
+            # `<place>.add(x)` / `.remove(x)` / `.discard(x)` on a set stored in the object state
+            read, pt, write = self._place(st.value.func.value, ex)
+            if pt[0] != 'Set':
+                raise Unsupported(st, '%s on %s' % (st.value.func.attr, pt))
+            cur = read()
+            a, _ = ex.expr(st.value.args[0], pt[1])
+            m = st.value.func.attr
+            if m == 'remove':
+                if not self.raises:
+                    raise Unsupported(st, 'set.remove outside the raising mode')
+                new = ex.partial('PyRt.Set.remove? %s %s' % (cur, a), st)
+            else:
+                new = '(PyRt.Set.%s %s %s)' % (m, cur, a)
+            return self._wrap(ex, self._let_update([write(new)]) + '\n' + self.block(rest, k, ctx), ctx)
         if isinstance(st, ast.Expr) and isinstance(st.value, (ast.Call, ast.Subscript)) \
                 and self._method_call(st.value, ctx) is not None:
             callee = self._method_call(st.value, ctx)
@@ -1171,11 +1210,12 @@ class FnTranslator:
         """an assignable place rooted at an attribute of `self` -> (read, type, write):
         `read()` = Lean term of its current value (may hoist a partial lookup), `write(new)` = the update
         (root variable, new root value) storing `new` there.  Sub-expressions are evaluated on the way."""
-        if isinstance(node, ast.Attribute) and isinstance(node.value, ast.Name) and node.value.id == self.self_name:
-            if node.attr not in self.cls_state:
+        if isinstance(node, ast.Attribute):
+            attr = self.state_attr(node)
+            if attr is None:
                 raise Unsupported(node, 'attribute %s is not declared in the spec' % node.attr)
-            term = 's.self.%s' % lean_field(node.attr)
-            return (lambda: term), self.cls_state[node.attr], (lambda new: ('self.' + node.attr, new))
+            term = 's.self.%s' % lean_field(attr)
+            return (lambda: term), self.cls_state[attr], (lambda new: ('self.' + attr, new))
         if isinstance(node, ast.Subscript):
             bread, bt, bwrite = self._place(node.value, ex)
             base = bread()
@@ -1198,9 +1238,10 @@ class FnTranslator:
 
     def _place_type(self, node):
         if isinstance(node, ast.Attribute):
-            if node.attr not in self.cls_state:
+            attr = self.state_attr(node)
+            if attr is None:
                 raise Unsupported(node, 'attribute %s is not declared in the spec' % node.attr)
-            return self.cls_state[node.attr]
+            return self.cls_state[attr]
         bt = self._place_type(node.value)
         if bt[0] == 'Dict':
             return bt[2]
@@ -1209,10 +1250,11 @@ class FnTranslator:
         raise Unsupported(node, 'item assignment on %s' % (bt,))
 
     def _root_attr(self, node):
-        while not (isinstance(node, ast.Attribute) and isinstance(node.value, ast.Name)
-                   and node.value.id == self.self_name):
+        while not (isinstance(node, ast.Attribute) and self.state_attr(node) is not None):
+            if not isinstance(node, (ast.Attribute, ast.Subscript)):
+                raise Unsupported(node, 'assignment target')
             node = node.value
-        return node.attr
+        return self.state_attr(node)
 
     @staticmethod
     def _scalar(t):
@@ -1225,10 +1267,9 @@ class FnTranslator:
         if self.cls is None or not self.cls_mut or self._scalar(t):
             return
         for n in ast.walk(value):
-            if isinstance(n, ast.Attribute) and isinstance(n.value, ast.Name) and n.value.id == self.self_name \
-                    and n.attr in self.cls_state and not self._scalar(self.cls_state[n.attr]) \
-                    and n.attr != tgt_attr:
-                raise Unsupported(node, 'possible alias of the mutable attribute %s' % n.attr)
+            a = self.state_attr(n) if isinstance(n, ast.Attribute) else None
+            if a is not None and not self._scalar(self.cls_state[a]) and a != tgt_attr:
+                raise Unsupported(node, 'possible alias of the mutable attribute %s' % a)
 
     def _assign(self, tgt, value, upd, ex, node):
         if isinstance(tgt, ast.Name):
@@ -1384,6 +1425,8 @@ class FnTranslator:
             items, lt = ex.expr(st.iter)
             if lt[0] == 'Dict':
                 items, lt = 'PyRt.Dict.keys %s' % items, ('List', lt[1])
+            if lt[0] == 'Set':
+                raise Unsupported(st.iter, 'iteration over a set (its order is unspecified in Python)')
             if lt[0] != 'List':
                 raise Unsupported(st.iter, 'iteration over a non-list')
             et = lt[1]
@@ -1581,6 +1624,20 @@ class ExprTr:
         if isinstance(node, ast.UnaryOp) and isinstance(node.op, ast.Not):
             r = self.static_test(node.operand)
             return None if r is None else (not r)
+        if isinstance(node, ast.Compare) and len(node.ops) == 1 and isinstance(node.ops[0], (ast.Is, ast.IsNot, ast.Eq)) \
+                and self.fn.cls is not None:
+            def type_of(n):
+                return n.args[0] if (isinstance(n, ast.Call) and isinstance(n.func, ast.Name) and n.func.id == 'type'
+                                     and len(n.args) == 1 and not n.keywords) else None
+            l, r = type_of(node.left), type_of(node.comparators[0])
+            if l is not None and r is not None:
+                # `type(x) is type(self)`: an argument of a declared container / scalar type is not this class
+                if isinstance(r, ast.Name) and r.id == self.fn.self_name and not (
+                        isinstance(l, ast.Name) and l.id == self.fn.self_name):
+                    t = self.expr(l)[1]
+                    if t[0] in ('Dict', 'List', 'Set', 'Prod', 'Int', 'Bool', 'Str'):
+                        return isinstance(node.ops[0], ast.IsNot)
+                raise Unsupported(node, 'type(...) comparison')
         if not (isinstance(node, ast.Call) and isinstance(node.func, ast.Name) and not node.keywords):
             return None
         if node.func.id == 'callable' and len(node.args) == 1:
@@ -1648,9 +1705,9 @@ class ExprTr:
             if isinstance(node.value, ast.Name) and node.value.id == self.fn.self_name and self.env is None \
                     and node.attr in self.fn.self_attrs:
                 return self.var('self.' + node.attr, node)
-            if isinstance(node.value, ast.Name) and node.value.id == self.fn.self_name and self.env is None \
-                    and node.attr in self.fn.cls_state and self.fn.self_name not in self.local:
-                return 's.self.%s' % lean_field(node.attr), self.fn.cls_state[node.attr]
+            if self.env is None and self.fn.self_name not in self.local and self.fn.state_attr(node) is not None:
+                a = self.fn.state_attr(node)
+                return 's.self.%s' % lean_field(a), self.fn.cls_state[a]
             raise Unsupported(node, 'attribute access')
         if isinstance(node, ast.Tuple):
             if expected is not None and expected[0] == 'Prod' and len(expected[1]) == len(node.elts):
@@ -1871,6 +1928,8 @@ class ExprTr:
             kx, _ = self.expr(a[0], bt[1])
             dx, _ = self.expr(a[1], bt[2])
             return '(PyRt.Dict.getD %s %s %s)' % (base, kx, dx), bt[2]
+        if m == '__len__' and not a:
+            return '(PyRt.Dict.len %s)' % base, INT
         raise Unsupported(node, 'dict method %s' % m)
 
     def _call(self, node: ast.Call, expected):
@@ -1915,6 +1974,22 @@ class ExprTr:
                 e, t = self.expr(a[0])
                 if t[0] == 'Dict':
                     return '(PyRt.Dict.len %s)' % e, INT
+                if t[0] == 'Set':
+                    return '(PyRt.Set.len %s)' % e, INT
+            if f in ('set', 'frozenset') and len(a) == 0:
+                t = expected if expected is not None and expected[0] == 'Set' else ('Set', None)
+                if known(t):
+                    return '(PyRt.Set.empty : %s)' % show_type(t), t
+                if self.infer_only:
+                    return 'PyRt.Set.empty', t
+                raise Unsupported(node, 'empty set of unknown element type')
+            if f in ('set', 'frozenset') and len(a) == 1:
+                e, t = self.expr(a[0])
+                if t[0] == 'Set':
+                    return e, t             # a copy: the same value
+                if t[0] == 'List' and known(t) and has_deceq(t[1], fn.deceq):
+                    return '(PyRt.Set.ofList %s)' % e, ('Set', t[1])
+                raise Unsupported(node, '%s() of %s' % (f, t))
             if f == 'list' and len(a) == 1:
                 e, t = self.expr(a[0])
                 if t[0] == 'Dict':
@@ -2043,6 +2118,8 @@ class ExprTr:
             return '(%s ≠ 0)' % e
         if t[0] in ('List', 'Str', 'Dict'):
             return '(%s ≠ [])' % e
+        if t[0] == 'Set':
+            return '(PyRt.Set.isEmpty %s = false)' % e
         if t[0] == 'Option' and known(t) and t[1][0] not in ('Int', 'Bool', 'List', 'Str', 'Option'):
             return '(%s ≠ none)' % e
         raise Unsupported(node, 'truth value of %s' % (t,))
@@ -2077,6 +2154,9 @@ class ExprTr:
                     r, rt = self.expr(right)
                 if rt[0] == 'Dict' and has_deceq(unify(lt, rt[1], node), self.fn.deceq):
                     p = '(PyRt.Dict.contains %s %s = true)' % (r, l)
+                    return p if isinstance(op, ast.In) else '(¬ %s)' % p
+                if rt[0] == 'Set' and has_deceq(unify(lt, rt[1], node), self.fn.deceq):
+                    p = '(PyRt.Set.contains %s %s = true)' % (r, l)
                     return p if isinstance(op, ast.In) else '(¬ %s)' % p
                 if rt[0] != 'List' or not has_deceq(unify(lt, rt[1], node), self.fn.deceq):
                     raise Unsupported(node, 'membership in %s' % (rt,))
